@@ -123,6 +123,73 @@ func VerifC12Sync() {
 	verifCheckListToURL(u, sp)
 }
 
+// VerifC12SyncRelated: two URL values related by resolution or Clone each have their own query and their
+// own parameter list: a mutation on one side keeps that side in step and leaves the other side's query
+// and list describing the same (old) query.
+func VerifC12SyncRelated() {
+	u, err := Parse(syncStarts[vnd.Pick(len(syncStarts))])
+	if err != nil {
+		return
+	}
+	var sp *SearchParams
+	early := vnd.Bool()
+	if early {
+		sp = u.SearchParams() // the handle exists before the relative is made
+	}
+	var r *Url
+	switch vnd.Pick(3) {
+	case 0:
+		r, err = u.Parse("")
+	case 1:
+		r, err = u.Parse("#x")
+	default:
+		r = u.Clone()
+	}
+	if err != nil || r == nil {
+		return
+	}
+	if !early {
+		sp = u.SearchParams()
+	}
+	rp := r.SearchParams()
+	// which side is mutated
+	a, ap, b, bp := u, sp, r, rp
+	if vnd.Bool() {
+		a, ap, b, bp = r, rp, u, sp
+	}
+	bq0 := b.Query()
+	bl0 := implPairs(bp)
+	arg := vnd.StrOver(vnd.Len(vnd.Param("C12.KRelated", 1, 2)), "ab&= ")
+	switch vnd.Pick(5) {
+	case 0:
+		ap.Append(arg, "v")
+		verifCheckListToURL(a, ap)
+	case 1:
+		ap.Set("a", arg)
+		verifCheckListToURL(a, ap)
+	case 2:
+		ap.Delete("a")
+		verifCheckListToURL(a, ap)
+	case 3:
+		ap.Sort()
+		verifCheckListToURL(a, ap)
+	case 4:
+		a.SetSearch(arg)
+		verifCheckURLToList(a, ap, arg == "")
+	}
+	vnd.Cover("related-mutated", true)
+	if b.Query() != bq0 {
+		vnd.Fail("a mutation on a related URL value changed this URL's query: it no longer matches its own parameter list")
+	}
+	if !samePairs(implPairs(bp), bl0) {
+		vnd.Fail("a mutation on a related URL value changed this URL's parameter list")
+	}
+	// and a later mutation on the other side writes its own list through
+	bp.Append("z", "1")
+	verifCheckListToURL(b, bp)
+}
+
 func init() {
+	verifHarnesses["VerifC12SyncRelated"] = VerifC12SyncRelated
 	verifHarnesses["VerifC12Sync"] = VerifC12Sync
 }
